@@ -283,8 +283,9 @@ DEV_CFGS = ('Threads_asbuilt', 'Threads_dev_SnapshotKeepsEnded', 'Threads_probe'
 
 def tlc_runs(tier, seed):
     """all TLC runs on Threads.tla, side by side"""
-    todo = [(c, dict(workers=6, timeout=900)) for c in DESIGN_CFGS]
-    todo += [(c, dict(workers=2, timeout=600)) for c in DEV_CFGS]
+    todo = [(c, dict(workers=8, timeout=900)) for c in DESIGN_CFGS]
+    # one worker: the same (shortest) counterexample every time
+    todo += [(c, dict(workers=1, timeout=600)) for c in DEV_CFGS]
     todo += [('Threads_sched_base', dict(workers=1, timeout=900)),
              ('Threads_sched', dict(workers=1, timeout=900))]
     if tier != 'quick':
